@@ -82,6 +82,24 @@ def _value_token(v):
     return None
 
 
+def _number_token_variants(v):
+    """Other texts Python's int() / float() read as the same number (the simple token syntax casts with them)."""
+    if isinstance(v, bool) or not isinstance(v, (int, float)):
+        return []
+    out = []
+    if isinstance(v, int) and 0 <= v < 10**6:
+        out += ["+%d" % v, "0%d" % v]
+    if isinstance(v, float):
+        r = repr(v)
+        if r.startswith("0.") and v != 0:
+            out.append(r[1:])          # .5
+        if v == int(v) and abs(v) < 10**6:
+            out.append("%d." % int(v))  # 1.
+            if v >= 0:
+                out.append("+" + r)
+    return out
+
+
 def token_spellings(atom):
     """[(tag, tokens)] for the command line / find_jobs string form."""
     p, op, arg = atom
@@ -94,6 +112,8 @@ def token_spellings(atom):
             t = _value_token(arg)
             if t is not None:
                 out.append(("tok/plain", [k, t]))
+            for alt in _number_token_variants(arg):
+                out.append(("tok/plain-alt", [k, alt]))
         else:
             t = _value_token(arg)
             if t is not None:
@@ -208,6 +228,22 @@ def all_spellings(base, thorough):
             out.append(("sibling/tokens", "tokens", toks))
             if thorough and not any(t.startswith("-") for t in toks):
                 out.append(("sibling/tokens/cli", "cli", toks))
+        # key/value pairs followed by a bare key (= "that key exists"): an odd number of tokens
+        last = atoms_[-1]
+        if len(atoms_) >= 2 and last[1] == "$exists" and last[2] is True:
+            toks = []
+            for a in atoms_[:-1]:
+                ts = [t for t in token_spellings(a) if len(t[1]) == 2]
+                if not ts:
+                    toks = None
+                    break
+                toks += ts[0][1]
+            if toks:
+                bare = [t for t in token_spellings(last) if t[0] == "tok/bare-key"]
+                if bare:
+                    out.append(("sibling/tokens+bare-key", "tokens", toks + bare[0][1]))
+                    if all(not any(c.isspace() for c in t) for t in toks):
+                        out.append(("sibling/tokens+bare-key/string", "string", toks + bare[0][1]))
     return ref, out
 
 
